@@ -169,6 +169,20 @@ def adjoint_identity(ctx, tag, A):
     ctx.eq('y-unchanged/' + tag, y, py)
     Ass = As.adjoint
     ctx.eq('adjoint.adjoint=A/' + tag, Ass(x), A(x))
+    # the returned adjoint is an operator like any other: evaluated into a given output it gives the same values
+    # (the solvers call adjoints in place)
+    from odl.set.sets import Field
+    if isinstance(As.range, Field):
+        return          # field-valued operators have no `out`
+    try:
+        ref = ctx.snapshot(As(y))
+        o = ctx.garbage(As.range, 'oadj' + tag)
+        ret = As(y, out=o)
+    except (NotImplementedError, TypeError) as e:
+        ctx.fact('adjoint-in-place-not-offered/' + tag, True)
+        return
+    ctx.fact('adjoint-in-place-returns-out/' + tag, ret is o)
+    ctx.eq('adjoint-in-place=out-of-place/' + tag, o, ref)
 
 
 def case(ctx, kind, recipe=None, field='real', space='plain', trees=None):
